@@ -51,7 +51,7 @@ CLAIMED = {
             "roots and redundancy block, Lagrange reconstruction from any qualifying set for the executable model of mpc_sss_key, Beaver, "
             "ECDH / MQV key equality, Pedersen) + correspondence of every cp_*/mpc_* entry point against executable textbook specifications "
             "with the key material the library prints, three RSA padding builds, six curves",
-            "Proved in Lean (33 theorems, all unbounded): for every key n = p*q with e*d = 1 mod lcm(p-1, q-1), RSADP(RSAEP(m)) = m for every "
+            "Proved in Lean (28 property theorems over 7 lemma files, all unbounded): for every key n = p*q with e*d = 1 mod lcm(p-1, q-1), RSADP(RSAEP(m)) = m for every "
             "m < n (gcd(m, n) != 1 included) and the model of bn_mxp_crt equals c^d mod n; EME-PKCS1-v1_5, EME-OAEP (any hash with fixed output "
             "length) and the basic layout satisfy unpad(pad(m)) = m for every admissible m and accept only strings of the documented layout; "
             "the integer-level scans modelling pad_basic / pad_pkcs1 equal the byte-level decoders for every k-octet block (pad_pkcs1: the "
